@@ -10,7 +10,7 @@ from ..core import Discrepancy, Law, must, require
 from ..model import groups as G
 
 PROPERTY_ID = "C17"
-LEVEL = "exploration"
+LEVEL = "exploration"  # exhaustive laws + one generated law
 RULE = (
     "Exhaustive enumeration. Axioms: every charge / pair / triple / quadruple "
     "of the stated domain (Z2, Z4, Z2Z2 complete; U1 on [-6,6]; U1U1 on "
@@ -379,12 +379,64 @@ def law_cross_symmetry(ch):
     ch.label(f"cross/{'-'.join(syms)}/ndim={ndim}")
 
 
+def law_sectors_large(ch):
+    """larger structures than the exhaustive sweep reaches (5-9 legs, up to
+    5 charges per leg, up to ~20000 tuples) against the brute-force filter"""
+    import symmray as sr
+    from hypothesis import strategies as st
+
+    s = ch.choice(G.SYMS, "symm")
+    pool = {"Z2": [0, 1], "Z4": [0, 1, 2, 3], "U1": [-3, -2, -1, 0, 1, 2, 4],
+            "Z2Z2": [(0, 0), (0, 1), (1, 0), (1, 1)],
+            "U1U1": [(a, b) for a in (-1, 0, 2) for b in (-2, 0, 1)]}[s]
+    ndim = ch.integer(4, 9, "ndim")
+    chargesets = []
+    total = 1
+    for k in range(ndim):
+        kmax = min(len(pool), 5)
+        n = ch.integer(1, kmax, f"n{k}")
+        if total * n > 20000:
+            n = 1
+        total *= n
+        cs = sorted(ch.draw(st.lists(st.sampled_from(pool), min_size=n,
+                                     max_size=n, unique=True), f"cs{k}"))
+        chargesets.append(tuple(cs))
+    duals = [ch.boolean(f"d{k}") for k in range(ndim)]
+    sec0 = [cs[ch.integer(0, len(cs) - 1, f"s{k}")]
+            for k, cs in enumerate(chargesets)]
+    charge = G.total(s, sec0, duals)
+    indices = tuple(sr.BlockIndex({c: 1 for c in cs}, dual=d)
+                    for cs, d in zip(chargesets, duals))
+    kind = ch.choice([k for k in _classes(s) if not k.endswith("f")], "kind")
+    x = _cls(s, kind)(indices=indices, charge=charge)
+    want = G.valid_sectors(s, chargesets, duals, charge)
+    got = must(lambda: list(x.gen_valid_sectors()), what="gen_valid_sectors")
+    require(len(got) == len(set(got)), "sectors-repeated(large)", f"{s}")
+    missing = sorted(set(want) - set(got))
+    extra = sorted(set(got) - set(want))
+    where = lambda: f"{s} {kind} charges={chargesets} duals={duals} " \
+                    f"charge={charge!r}"
+    require(not missing, "sectors-missing(large)",
+            lambda: f"{where()}: {len(missing)} missing, e.g. {missing[:2]}")
+    require(not extra, "sectors-extra(large)",
+            lambda: f"{where()}: {len(extra)} extra, e.g. {extra[:2]}")
+    lead = 1
+    for cs in chargesets[:-1]:
+        lead *= len(cs)
+    ch.label(f"ndim={ndim}")
+    ch.label("leading-product>64" if lead > 64 else "leading-product<=64")
+    ch.mark_nontrivial(lead > 64 and any(duals))
+
+
 LAWS = [
     Law("axioms", law_axioms, kind="enum", cases=axiom_cases,
         doc="group axioms, inverse, parity homomorphism: exhaustive"),
     Law("sectors", law_sectors, kind="enum", cases=sector_cases,
         doc="gen_valid_sectors / is_valid_sector / fill constructors == "
             "brute-force enumeration: exhaustive over small structures"),
+    Law("sectors_large", law_sectors_large, quick=300, thorough=6000,
+        doc="generated larger structures (4-9 legs, up to 5 charges per leg) "
+            "against the brute-force filter"),
     Law("cross_symmetry", law_cross_symmetry, kind="enum", cases=cross_cases,
         doc="the same labels / directions / charge enumerated under several "
             "symmetries in turn through the generic classes"),
